@@ -6,6 +6,7 @@
 package sm
 
 import (
+	"crypto/sha1"
 	"encoding/json"
 	"errors"
 	"fmt"
@@ -37,6 +38,11 @@ type Cfg struct {
 	// kills the process, the driver attributes it to this root, confirms it by searching the root
 	// alone (Single) and continues without it.
 	Ctx *mc.Ctx
+	// MaxTransitions, when > 0, bounds the transitions executed below one root in one regime. The
+	// frontier is first-in first-out, so when the bound is reached every history shorter than the one
+	// being expanded has been explored; Stats.Truncated / CompleteDepth say so and the caller reports
+	// a cap. (A root with random routers in a cycle has ~8^depth states under a deviation bound of 2.)
+	MaxTransitions int
 }
 
 // riskyDesc is what is recorded for a root under search.
@@ -113,6 +119,10 @@ type Trans struct {
 type Stats struct {
 	States, Transitions, Execs, MaxDepth, Waiting, Completed, Failed, GoErrors int
 	MaxSprintSteps                                                             int // largest number of new steps (across runs) in one sprint
+	// Truncated: MaxTransitions was reached in some regime; CompleteDepth is the largest depth d such
+	// that every history of at most d resumes was explored in every regime.
+	Truncated     bool
+	CompleteDepth int
 }
 
 // NewSteps is the number of steps created by the last call, across all runs.
@@ -219,8 +229,12 @@ func Search(root *world.Root, cfg Cfg) Stats {
 	if keyf == nil {
 		keyf = DefaultKey
 	}
+	st.CompleteDepth = cfg.Depth
 	for _, regime := range cfg.Regimes {
-		seen := map[string]bool{}
+		// states are remembered by a 160-bit digest of their canonical key (the keys are whole session
+		// documents; a root with 10^6 states would otherwise need gigabytes)
+		seen := map[[sha1.Size]byte]bool{}
+		regimeTransitions := 0
 		type item struct{ hist []world.Step }
 		frontier := []item{}
 		// the start, under every choice sequence within the bound
@@ -239,6 +253,7 @@ func Search(root *world.Root, cfg Cfg) Stats {
 				t.Regime = regime
 				st.Execs += len(hist)
 				st.Transitions++
+				regimeTransitions++
 				if len(hist)-1 > st.MaxDepth {
 					st.MaxDepth = len(hist) - 1
 				}
@@ -261,7 +276,7 @@ func Search(root *world.Root, cfg Cfg) Stats {
 				if n := t.NewSteps(); n > st.MaxSprintSteps {
 					st.MaxSprintSteps = n
 				}
-				k := keyf(t)
+				k := sha1.Sum([]byte(keyf(t)))
 				if seen[k] {
 					return
 				}
@@ -290,6 +305,14 @@ func Search(root *world.Root, cfg Cfg) Stats {
 		for len(frontier) > 0 {
 			it := frontier[0]
 			frontier = frontier[1:]
+			if cfg.MaxTransitions > 0 && regimeTransitions >= cfg.MaxTransitions {
+				// it.hist has len-1 resumes: every history with fewer resumes than its successors was explored
+				st.Truncated = true
+				if d := len(it.hist) - 1; d < st.CompleteDepth {
+					st.CompleteDepth = d
+				}
+				break
+			}
 			for _, ev := range cfg.Events {
 				expand(it.hist, ev, false)
 			}
